@@ -284,7 +284,9 @@ def updateTaskRefStatus (s : Sys) (key : String) (rj : Job) (tasks : List Task) 
 /-- `adoptUnrecordedTasks`: cached pods labelled with the Job's uid and controlled by it -/
 def adoptUnrecordedTasks (s : Sys) (jo : JobObj) (tasks : List Task) : List Task :=
   let extra := (sortPods s.podCache).filter (fun p =>
-    p.jobLabel = some jo.uid && !(tasks.any (·.name = p.pod.name)) && p.ownerUid = some jo.uid)
+    p.jobLabel = some jo.uid && !(tasks.any (·.name = p.pod.name)) &&
+    -- a task recorded in the status was already looked up; not found = gone, the cache is stale
+    !(jo.job.status.tasks.any (·.name = p.pod.name)) && p.ownerUid = some jo.uid)
   tasks ++ extra.filterMap podTask
 
 /-- `syncCreateTask` for one index request.  Returns `none` on error. -/
